@@ -32,6 +32,8 @@ CONSTANTS Addrs,        \* all addresses
 VARIABLES now, bal, modBal, pools, acct, traces, vdenom, msgs, act
 
 vars == <<now, bal, modBal, pools, acct, traces, vdenom, msgs, act>>
+\* (a trace specification may start a new execution with a reset step; it sets act to the initial value, which no action
+\* of this specification does - the action properties below do not judge such a step: act'.name # "init")
 
 -----------------------------------------------------------------------------
 ZeroC == TLCEval([d \in Denoms |-> 0])
@@ -301,46 +303,46 @@ C05_Backed == modBal = SumSet(AllPools, LAMBDA x : PoolLocked(PoolAt(x)))
 C05_Bounds == \A x \in AllPools : PoolAt(x).withdrawn >= 0 /\ PoolAt(x).sent >= 0 /\ PoolAt(x).withdrawn + PoolAt(x).sent <= PoolAt(x).init
 \* C05 / C01: a rejected message changes nothing; nothing is created or destroyed
 IsMsg(n) == n \in {"createpool", "withdraw", "send", "createacc", "split", "move", "movedenoms"}
-Rejected == [][(IsMsg(act'.name) /\ ~act'.ok) => UNCHANGED <<now, bal, modBal, pools, acct, traces>>]_vars
+Rejected == [][(act'.name # "init") => ((IsMsg(act'.name) /\ ~act'.ok) => UNCHANGED <<now, bal, modBal, pools, acct, traces>>)]_vars
 TotalCoins == [d \in Denoms |-> SumSet(Addrs, LAMBDA a : bal[a][d]) + (IF d = vdenom THEN modBal ELSE 0)]
-Conserved == [][(IsMsg(act'.name)) => TotalCoins' = TotalCoins]_vars
+Conserved == [][(act'.name # "init") => ((IsMsg(act'.name)) => TotalCoins' = TotalCoins)]_vars
 NoNegBal == \A a \in Addrs : AllGE0(bal[a]) /\ AllGE0(SpendableC(a, now))
 \* C06: before lock end a pool's remainder only shrinks through send; withdrawn only changes at / after lock end
-C06_Lock == [][\A o \in Addrs : \A i \in DOMAIN pools[o] :
-                 (now < pools[o][i].lockEnd /\ i \in DOMAIN pools'[o] /\ act'.name # "send") => PoolLocked(pools'[o][i]) = PoolLocked(pools[o][i])]_vars
-C06_WithdrawnOnlyAfter == [][\A o \in Addrs : \A i \in DOMAIN pools[o] :
-                 (i \in DOMAIN pools'[o] /\ pools'[o][i].withdrawn # pools[o][i].withdrawn) => now >= pools[o][i].lockEnd]_vars
+C06_Lock == [][(act'.name # "init") => (\A o \in Addrs : \A i \in DOMAIN pools[o] :
+                 (now < pools[o][i].lockEnd /\ i \in DOMAIN pools'[o] /\ act'.name # "send") => PoolLocked(pools'[o][i]) = PoolLocked(pools[o][i]))]_vars
+C06_WithdrawnOnlyAfter == [][(act'.name # "init") => (\A o \in Addrs : \A i \in DOMAIN pools[o] :
+                 (i \in DOMAIN pools'[o] /\ pools'[o][i].withdrawn # pools[o][i].withdrawn) => now >= pools[o][i].lockEnd)]_vars
 \* C06: an accepted withdraw pays exactly the matured remainders, and nothing is withdrawable right after
-C06_WithdrawExact == [][(act'.name = "withdraw" /\ act'.ok) =>
+C06_WithdrawExact == [][(act'.name # "init") => ((act'.name = "withdraw" /\ act'.ok) =>
                           /\ act'.out.paid = SumSeq(pools[act'.x.o], LAMBDA p : Withdrawable(p, now))
                           /\ \A i \in DOMAIN pools'[act'.x.o] : Withdrawable(pools'[act'.x.o][i], now) = 0
-                          /\ bal'[act'.x.o][vdenom] = bal[act'.x.o][vdenom] + act'.out.paid]_vars
+                          /\ bal'[act'.x.o][vdenom] = bal[act'.x.o][vdenom] + act'.out.paid)]_vars
 \* C18: withdrawal events report per pool what was withdrawn from it and sum to what was paid
-C18_WithdrawEvents == [][(act'.name \in {"withdraw", "send"} /\ act'.ok) =>
+C18_WithdrawEvents == [][(act'.name # "init") => ((act'.name \in {"withdraw", "send"} /\ act'.ok) =>
                            /\ SumSeq(act'.out.events, LAMBDA e : e.amount) = act'.out.paid
-                           /\ \A k \in DOMAIN act'.out.events : act'.out.events[k].amount > 0]_vars
+                           /\ \A k \in DOMAIN act'.out.events : act'.out.events[k].amount > 0)]_vars
 \* C07: an accepted split / move is exact, keeps the spendable balance, and the recipient gets the documented schedule
 IsSplit(n) == n \in {"split", "move", "movedenoms"}
 SplitAmt == IF act'.name = "split" THEN act'.c
             ELSE IF act'.name = "move" THEN LockedC(acct[act'.x.from], now)
             ELSE [d \in Denoms |-> IF d \in act'.x.ds THEN LockedC(acct[act'.x.from], now)[d] ELSE 0]
-C07_Exact == [][(IsSplit(act'.name) /\ act'.ok) =>
+C07_Exact == [][(act'.name # "init") => ((IsSplit(act'.name) /\ act'.ok) =>
                   LET f == act'.x.from  t == act'.x.to  u == SplitAmt IN
                   /\ LockedC(acct'[f], now) = SubC(LockedC(acct[f], now), u)
                   /\ SubC(bal'[f], LockedC(acct'[f], now)) = SubC(bal[f], LockedC(acct[f], now))
                   /\ LockedC(acct'[t], now) = u /\ acct'[t].end = acct[f].end /\ acct'[t].start = Max(now, acct[f].start)
-                  /\ bal'[t] = u]_vars
-C07_Drift == [][(IsSplit(act'.name) /\ act'.ok) =>
+                  /\ bal'[t] = u)]_vars
+C07_Drift == [][(act'.name # "init") => ((IsSplit(act'.name) /\ act'.ok) =>
                   \A t \in now..(Tmax + 2) : \A d \in Denoms :
                      LET x == VestingC(acct'[act'.x.from], t)[d] + VestingC(acct'[act'.x.to], t)[d] - VestingC(acct[act'.x.from], t)[d]
-                     IN x >= -3 /\ x <= 3]_vars
+                     IN x >= -3 /\ x <= 3)]_vars
 \* C07: any amount up to the locked, undelegated coins can be split (to a fresh, unblocked address)
 C07_Liveness == \A x \in Tries : (Configured /\ x.m = "split" /\ x.amt[1] \in {"one", "half", "all"} /\ msgs < MaxMsgs
                                   /\ acct[x.from].kind = "cv" /\ ~Exists(x.to) /\ x.to \notin Blocked) =>
                    LET c == [d \in Denoms |-> IF d \in x.ds THEN Resolve(x.amt, LockedC(acct[x.from], now)[d]) ELSE 0]
                    IN ((\A d \in x.ds : c[d] > 0) /\ AllLE(c, LockedC(acct[x.from], now))) => DoSplit(x.from, x.to, c, x.ds).ok
 \* C08: accounts created out of a pool
-C08_Send == [][(act'.name = "send" /\ act'.ok) =>
+C08_Send == [][(act'.name # "init") => ((act'.name = "send" /\ act'.ok) =>
                  LET o == act'.x.o  t == act'.x.to  amt == act'.amt
                      i == LastIdx(PoolIdx(pools[o], act'.x.n))
                      p == pools[o][i]  vt == VT(p.vt) IN
@@ -349,21 +351,23 @@ C08_Send == [][(act'.name = "send" /\ act'.ok) =>
                  /\ pools'[o][i].sent = p.sent + amt
                  /\ amt <= PoolLocked(AfterWithdraw(pools[o], now).ps[i])
                  /\ IF act'.x.restart THEN acct'[t].start = now + vt.lockup /\ acct'[t].end = now + vt.lockup + vt.vesting
-                    ELSE acct'[t].end = p.lockEnd /\ acct'[t].start = Max(p.lockEnd, now)]_vars
-C08_Create == [][(act'.name = "createacc" /\ act'.ok) =>
+                    ELSE acct'[t].end = p.lockEnd /\ acct'[t].start = Max(p.lockEnd, now))]_vars
+C08_Create == [][(act'.name # "init") => ((act'.name = "createacc" /\ act'.ok) =>
                  /\ bal'[act'.x.to] = act'.c /\ acct'[act'.x.to] = CV(act'.c, act'.s, act'.e)
-                 /\ bal'[act'.x.from] = SubC(bal[act'.x.from], act'.c)]_vars
+                 /\ bal'[act'.x.from] = SubC(bal[act'.x.from], act'.c))]_vars
 \* C09: existing accounts are never replaced or altered, except the signer's own original vesting on split / move
-C09_NoOverwrite == [][\A a \in Addrs : (acct[a].kind # "none" /\ act'.name # "delegate") =>
+C09_NoOverwrite == [][(act'.name # "init") => (\A a \in Addrs : (acct[a].kind # "none" /\ act'.name # "delegate") =>
                         \/ acct'[a] = acct[a]
-                        \/ (IsSplit(act'.name) /\ act'.ok /\ a = act'.x.from /\ acct'[a] = [acct[a] EXCEPT !.ov = acct'[a].ov] /\ AllLE(acct'[a].ov, acct[a].ov))]_vars
+                        \/ (IsSplit(act'.name) /\ act'.ok /\ a = act'.x.from /\ acct'[a] = [acct[a] EXCEPT !.ov = acct'[a].ov] /\ AllLE(acct'[a].ov, acct[a].ov)))]_vars
 \* C17: lineage: an account is recorded as genesis-derived iff it was created out of a genesis pool or split from a genesis-derived account
 C17_TraceOnlyForVesting == \A a \in Addrs : traces[a].has => acct[a].kind = "cv"
-C17_Lineage == [][/\ (act'.name = "send" /\ act'.ok) =>
-                        traces'[act'.x.to] = Trace(FALSE, pools[act'.x.o][LastIdx(PoolIdx(pools[act'.x.o], act'.x.n))].genesis, FALSE)
-                  /\ (IsSplit(act'.name) /\ act'.ok) =>
-                        (IsGenDerived(traces'[act'.x.to]) <=> IsGenDerived(traces[act'.x.from]))
-                  /\ \A a \in Addrs : (traces[a].has /\ act'.name # "export") => traces'[a] = traces[a]]_vars
+C17_LineageStep ==
+  /\ (act'.name = "send" /\ act'.ok) =>
+        traces'[act'.x.to] = Trace(FALSE, pools[act'.x.o][LastIdx(PoolIdx(pools[act'.x.o], act'.x.n))].genesis, FALSE)
+  /\ (IsSplit(act'.name) /\ act'.ok) =>
+        (IsGenDerived(traces'[act'.x.to]) <=> IsGenDerived(traces[act'.x.from]))
+  /\ \A a \in Addrs : (traces[a].has /\ act'.name # "export") => traces'[a] = traces[a]
+C17_Lineage == [][(act'.name # "init") => C17_LineageStep]_vars
 \* C13: the denomination cannot change while pools exist; only governance changes it
-C13_Denom == [][(vdenom' # vdenom) => (act'.name = "updatedenom" /\ act'.auth = "gov" /\ \A o \in Addrs : pools[o] = <<>>)]_vars
+C13_Denom == [][(act'.name # "init") => ((vdenom' # vdenom) => (act'.name = "updatedenom" /\ act'.auth = "gov" /\ \A o \in Addrs : pools[o] = <<>>))]_vars
 =============================================================================
